@@ -153,6 +153,7 @@ type Harness struct {
 	Workers   int
 	Quiet     bool
 	NoModel   map[string]bool
+	Race      bool // native replay under go test -race
 }
 
 // Result of one harness.
@@ -256,6 +257,7 @@ func (c *Ctx) ReplayRepo(h Harness, cex symgo.Cex) (ReplayResult, error) {
 
 import (
 	"fmt"
+	"os"
 	"testing"
 
 	"%s"
@@ -263,12 +265,17 @@ import (
 
 func TestVerifReplay(t *testing.T) {
 	v := vrt.Run(%s)
+	// map-order witnesses cannot be forced natively: retry until Go picks a
+	// differing order
+	for i := 0; i < 64 && v == "ok" && os.Getenv("VRT_REPEAT") != ""; i++ {
+		v = vrt.Run(%s)
+	}
 	fmt.Println("VERDICT:", v)
 	for _, l := range vrt.Log {
 		fmt.Println("OBSERVE:", l)
 	}
 }
-`, pkgName, VrtImport, h.Func)
+`, pkgName, VrtImport, h.Func, h.Func)
 	testFile := filepath.Join(dir, "replay_test.go")
 	os.WriteFile(testFile, []byte(test), 0644)
 	repl[filepath.Join(RepoDir, h.Pkg, "zz_verif_replay_test.go")] = testFile
@@ -293,6 +300,9 @@ func TestVerifReplay(t *testing.T) {
 	cmd := exec.Command(bin, "-test.v", "-test.run", "^TestVerifReplay$", "-test.timeout", "120s")
 	cmd.Dir = c.Scratch
 	cmd.Env = append(goEnv(), "VRT_REPLAY="+rpFile)
+	if h.MapOrder {
+		cmd.Env = append(cmd.Env, "VRT_REPEAT=1")
+	}
 	out, _ := runTimeout(cmd, 5*time.Minute)
 	m := regexp.MustCompile(`(?m)^VERDICT: (.*)$`).FindSubmatch(out)
 	if m == nil {
